@@ -423,10 +423,10 @@ def rule_r7_union_extent(ctx: Ctx) -> None:
 
 
 # ---------------------------------------------------------------------------------------------------- R8 directives
-def rule_r8_directives(ctx: Ctx) -> None:
+def rule_r8_directives(ctx: Ctx, rid: str = "C05.R8") -> None:
     repo = ctx.repo
     ctx.rule(
-        "C05.R8",
+        rid,
         "directive / marker handlers: exactly one of @sealed/@extent per schema, @extent after the last attribute, @union/@deprecated "
         "before the first attribute and not duplicated, @deprecated not in the response, one `---`, @assert needs a true boolean; "
         "unknown directives rejected; serialization mode required",
